@@ -30,9 +30,70 @@ pub struct Case {
     /// choice tape of the data values (d0 and the changed fields)
     pub dtape: Vec<u16>,
     pub style: u64,
+    /// 0: the schema's own keys; 1..: the two members of `omap` are renamed to numeric-looking strings that are not the
+    /// canonical spelling of an array index (`ODD_KEYS`), in the data and in every static access
+    #[serde(default)]
+    pub odd_keys: u8,
 }
 
 pub struct C11;
+
+/// keys that `Number()` accepts but that are property names of their own: a path segment must keep them as they are
+pub const ODD_KEYS: &[(&str, &str)] = &[("01", "1e1"), ("007", ""), (" 1", "0x1"), ("1.0", "-0"), ("+1", "1 ")];
+
+/// `omap.k0` / `omap['k0']` -> `omap['01']` (through the serialised model: Member -> Index over a string literal)
+pub fn rename_omap_keys(g: &Group, ds: &mut [JsVal], odd: u8) -> Group {
+    if odd == 0 {
+        return g.clone();
+    }
+    fn walk(v: &mut Value, name: &dyn Fn(&str) -> Option<&'static str>) {
+        match v {
+            Value::Array(a) => a.iter_mut().for_each(|x| walk(x, name)),
+            Value::Object(m) => {
+                if let Some(Value::Array(args)) = m.get("Member") {
+                    if let Some(n) = args.get(1).and_then(|k| k.as_str()).and_then(|k| name(k)) {
+                        let obj = args[0].clone();
+                        m.clear();
+                        m.insert("Index".into(), json!([obj, {"Str": n}]));
+                    }
+                }
+                if let Some(n) = m.get("Str").and_then(|k| k.as_str()).and_then(|k| name(k)) {
+                    m.insert("Str".into(), json!(n));
+                }
+                m.values_mut().for_each(|x| walk(x, name));
+            }
+            _ => {}
+        }
+    }
+    let (s0, s1): (&'static str, &'static str) = ODD_KEYS[(odd as usize - 1) % ODD_KEYS.len()];
+    let name2 = move |k: &str| -> Option<&'static str> {
+        match k {
+            "k0" => Some(s0),
+            "k1" => Some(s1),
+            _ => None,
+        }
+    };
+    let mut v = serde_json::to_value(g).expect("group serialises");
+    walk(&mut v, &name2);
+    fn data(v: &mut JsVal, name: &dyn Fn(&str) -> Option<&'static str>) {
+        match v {
+            JsVal::Arr(a) => a.iter_mut().for_each(|x| data(x, name)),
+            JsVal::Obj(fs) => {
+                for (k, x) in fs.iter_mut() {
+                    if let Some(n) = name(k) {
+                        *k = n.to_string();
+                    }
+                    data(x, name);
+                }
+            }
+            _ => {}
+        }
+    }
+    for d in ds.iter_mut() {
+        data(d, &name2);
+    }
+    serde_json::from_value(v).expect("renamed group deserialises")
+}
 
 // ---------------------------------------------------------------------------------------------------------------
 // tape
@@ -605,7 +666,9 @@ impl PropCheck for C11 {
     type Case = Case;
 
     fn strategy(&self) -> BoxedStrategy<Case> {
-        (proptest::collection::vec(any::<u16>(), 30..260), proptest::collection::vec(any::<u16>(), 120..200), any::<u64>()).prop_map(|(tape, dtape, style)| Case { tape, dtape, style }).boxed()
+        (proptest::collection::vec(any::<u16>(), 30..260), proptest::collection::vec(any::<u16>(), 120..200), any::<u64>(), prop_oneof![6 => Just(0u8), 4 => 1u8..=ODD_KEYS.len() as u8])
+            .prop_map(|(tape, dtape, style, odd_keys)| Case { tape, dtape, style, odd_keys })
+            .boxed()
     }
 
     fn eval(&self, w: Option<&mut Worker>, cases: &[Case]) -> Result<Vec<Outcome>, String> {
@@ -618,9 +681,9 @@ impl PropCheck for C11 {
     }
 
     fn case_json(&self, case: &Case) -> Value {
-        let g = build_group(&case.tape);
+        let (mut ds, changed) = datas(&case.dtape, 3);
+        let g = rename_omap_keys(&build_group(&case.tape), &mut ds, case.odd_keys);
         let src = crate::compile::print_group(&g, case.style);
-        let (ds, changed) = datas(&case.dtape, 3);
         json!({"case": serde_json::to_value(case).unwrap(), "source": src, "datas_js": ds.iter().map(|e| e.to_js()).collect::<Vec<_>>(), "changed_fields": changed})
     }
 
@@ -652,11 +715,14 @@ fn mismatch_failure(stage: &str, m: &Mismatch, src: &str, data: &str) -> Failure
 }
 
 pub fn eval_case(w: &mut Worker, c: &Case) -> Result<Outcome, String> {
-    let g = build_group(&c.tape);
-    let (ds, changed) = datas(&c.dtape, 3);
+    let (mut ds, changed) = datas(&c.dtape, 3);
+    let g = rename_omap_keys(&build_group(&c.tape), &mut ds, c.odd_keys);
     let djs: Vec<String> = ds.iter().map(|e| e.to_js()).collect();
     let mut out = Outcome::default();
     let mut labels = vec![];
+    if c.odd_keys != 0 {
+        labels.push("keys:numeric-looking-strings".to_string());
+    }
     node_labels(&g.files[0].body, 0, &mut labels);
     labels.sort();
     labels.dedup();
